@@ -112,6 +112,95 @@ fn check<T: Copy, const SZ: usize>(ft: FixedStructType, control: bool) {
         Err(_) => {}   // the record cannot be built at all; it is never printed
     }
 }
+//@cut fn path=src/common.rs name=max2 keepconst=1
+//@end
+//@cut fn path=src/common.rs name=max3 keepconst=1
+//@end
+//@cut fn path=src/common.rs name=max4 keepconst=1
+//@end
+//@cut fn path=src/common.rs name=max5 keepconst=1
+//@end
+//@cut fn path=src/common.rs name=max6 keepconst=1
+//@end
+//@cut fn path=src/common.rs name=max7 keepconst=1
+//@end
+//@cut fn path=src/common.rs name=max8 keepconst=1
+//@end
+//@cut fn path=src/common.rs name=max9 keepconst=1
+//@end
+//@cut fn path=src/common.rs name=max10 keepconst=1
+//@end
+//@cut fn path=src/common.rs name=max11 keepconst=1
+//@end
+//@cut fn path=src/common.rs name=max12 keepconst=1
+//@end
+//@cut fn path=src/common.rs name=max13 keepconst=1
+//@end
+//@cut fn path=src/common.rs name=max14 keepconst=1
+//@end
+//@cut fn path=src/common.rs name=max15 keepconst=1
+//@end
+//@cut fn path=src/common.rs name=max16 keepconst=1
+//@end
+//@cut fn path=src/common.rs name=min2 keepconst=1
+//@end
+//@cut fn path=src/common.rs name=min3 keepconst=1
+//@end
+//@cut fn path=src/common.rs name=min4 keepconst=1
+//@end
+//@cut fn path=src/common.rs name=min5 keepconst=1
+//@end
+//@cut fn path=src/common.rs name=min6 keepconst=1
+//@end
+//@cut fn path=src/common.rs name=min7 keepconst=1
+//@end
+//@cut fn path=src/common.rs name=min8 keepconst=1
+//@end
+//@cut fn path=src/common.rs name=min9 keepconst=1
+//@end
+//@cut fn path=src/common.rs name=min10 keepconst=1
+//@end
+//@cut fn path=src/common.rs name=min11 keepconst=1
+//@end
+//@cut fn path=src/common.rs name=min12 keepconst=1
+//@end
+//@cut fn path=src/common.rs name=min13 keepconst=1
+//@end
+//@cut fn path=src/common.rs name=min14 keepconst=1
+//@end
+//@cut fn path=src/common.rs name=min15 keepconst=1
+//@end
+//@cut fn path=src/common.rs name=min16 keepconst=1
+//@end
+//@cut type kind=const path=src/data/fixedstruct.rs name=ENTRY_SZ_MAX
+//@end
+//@cut type kind=const path=src/data/fixedstruct.rs name=ENTRY_SZ_MIN
+//@end
+//@cut type kind=const path=src/data/fixedstruct.rs name=TIMEVAL_SZ_MAX
+//@end
+
+// C08: the reader rejects a file smaller than ENTRY_SZ_MIN and reads records into buffers of ENTRY_SZ_MAX / TIMEVAL_SZ_MAX bytes:
+// no supported layout's record may be smaller than the minimum or larger than the maxima (else a file holding one such record is
+// never printed, or a buffer is too small).  All 16 layouts, loop-free: complete.
+#[cfg(kani)]
+fn any_layout() -> FixedStructType {
+    let i: u8 = kani::any();
+    kani::assume(i < 16);
+    match i {
+        0 => FixedStructType::Fs_Freebsd_x8664_Utmpx, 1 => FixedStructType::Fs_Linux_Arm64Aarch64_Lastlog, 2 => FixedStructType::Fs_Linux_Arm64Aarch64_Utmpx,
+        3 => FixedStructType::Fs_Linux_x86_Acct, 4 => FixedStructType::Fs_Linux_x86_Acct_v3, 5 => FixedStructType::Fs_Linux_x86_Lastlog,
+        6 => FixedStructType::Fs_Linux_x86_Utmpx, 7 => FixedStructType::Fs_Netbsd_x8632_Acct, 8 => FixedStructType::Fs_Netbsd_x8632_Lastlogx,
+        9 => FixedStructType::Fs_Netbsd_x8632_Utmpx, 10 => FixedStructType::Fs_Netbsd_x8664_Lastlog, 11 => FixedStructType::Fs_Netbsd_x8664_Lastlogx,
+        12 => FixedStructType::Fs_Netbsd_x8664_Utmp, 13 => FixedStructType::Fs_Netbsd_x8664_Utmpx, 14 => FixedStructType::Fs_Openbsd_x86_Lastlog,
+        _ => FixedStructType::Fs_Openbsd_x86_Utmp,
+    }
+}
+#[cfg(kani)] #[kani::proof] fn tvd_entry_size_bounds() {
+    let t = any_layout();
+    assert!(ENTRY_SZ_MIN <= t.size());
+    assert!(t.size() <= ENTRY_SZ_MAX);
+    assert!(t.size_tv() <= TIMEVAL_SZ_MAX);
+}
 #[cfg(kani)] #[kani::proof] fn tvd_fs_freebsd_x8664_utmpx() { check::<freebsd_x8664::utmpx, { freebsd_x8664::UTMPX_SZ }>(FixedStructType::Fs_Freebsd_x8664_Utmpx, false); }
 #[cfg(kani)] #[kani::proof] fn tvd_fs_linux_arm64aarch64_lastlog() { check::<linux_arm64aarch64::lastlog, { linux_arm64aarch64::LASTLOG_SZ }>(FixedStructType::Fs_Linux_Arm64Aarch64_Lastlog, false); }
 #[cfg(kani)] #[kani::proof] fn tvd_fs_linux_arm64aarch64_utmpx() { check::<linux_arm64aarch64::utmpx, { linux_arm64aarch64::UTMPX_SZ }>(FixedStructType::Fs_Linux_Arm64Aarch64_Utmpx, false); }
